@@ -1492,6 +1492,8 @@ class Repository:
 
                 if finished:
                     logger.info('Finished writing file %s', file_path)
+                    # Whatever existed at the target path must not outlive the restore
+                    os.truncate(restore_path, files_sizes[file_path])
                     self.restore_metadata(restore_path, metadata)
                     finished_tracker.update()
 
@@ -1504,6 +1506,7 @@ class Repository:
         chunks_references = defaultdict(list)
         files_digests = {}
         files_metadata = {}
+        files_sizes = {}
         total_bytes = 0
 
         for snapshot_body in snapshots:
@@ -1541,6 +1544,7 @@ class Repository:
                     )
                     chunk_position += chunk_size
 
+                files_sizes[file_path] = chunk_position
                 total_bytes += chunk_position
 
         bytes_tracker = tqdm(
